@@ -637,7 +637,7 @@ pub fn run(args: &Args) -> Report {
         rep.inconclusive("token ledger capacity exhausted");
     }
     rep.exhaustive = Some(false);
-    rep.floor("seed_kinds", rep.n_seen("seed_kinds"), 3);
+    rep.floor_set("seed_kinds", 3);
     rep.floor("race_rounds_contended", contended, if miri { 1 } else { (rounds / 10) as u64 });
     rep.floor("get_during_init_returned_none", rep.get("get_during_init_returned_none"), 2);
     rep
